@@ -315,7 +315,7 @@ def cases(tier, seed):
         if rec["size"] < 100000 and (T or rnd.random() < 0.15):
             add(rec, "cmapmix", 0, 4 if T else 2)
     # generated variable fonts with several overlapping FeatureVariationRecords; generated CFF fonts with seac accents
-    for gname, nq, nt, dq, dt in (("genfv", 40, 300, 3, 6), ("gencff", 30, 200, 3, 5)):
+    for gname, nq, nt, dq, dt in (("genfv", 40, 300, 3, 6), ("gencff", 30, 200, 3, 5), ("genlay", 50, 400, 3, 6)):
         for k in range(nt if T else nq):
             out.append({"id": "%s:%d" % (gname, k), "path": "gen:%s/%d" % (gname, k), "member": None, "variant": gname, "gen": k,
                         "batch": 0, "n": dt if T else dq, "seed": seed, "tier": tier, "timeout": CASE_TIMEOUT})
@@ -459,10 +459,10 @@ def _build_original(case):
         order = list(f.getGlyphOrder())
         f.close()
         return data, order
-    if v in ("genfv", "gencff"):
-        from vmon.gen import c07_cff, c07_fvars
+    if v in ("genfv", "gencff", "genlay"):
+        from vmon.gen import c07_cff, c07_fvars, c07_lay
 
-        G = c07_fvars if v == "genfv" else c07_cff
+        G = {"genfv": c07_fvars, "gencff": c07_cff, "genlay": c07_lay}[v]
         prog = G.program(random.Random("%s/%s/%s" % (v, case["gen"], case["seed"])))
         case["_prog"] = prog
         data = G.build(prog)
@@ -725,6 +725,10 @@ def _input_drawable(orig_bytes, cache):
     return cache["drawable"]
 
 
+def variable_font(h):
+    return bool(h.face.axis_infos)
+
+
 def _options(optd):
     from fontTools import subset as SS
 
@@ -892,6 +896,8 @@ def _one(case, ctx, rnd, kind, req, optd, orig_bytes, orig_order, oindex, S0, h0
         names = rnd.sample(names, cap)
     hc = H.HB(cmp_bytes) if cmp_bytes is not orig_bytes else h0
     locs = H.axis_locations(hc, rnd, n_random=1 if quick else 2, corners=not quick)
+    if case["variant"] == "genlay" and variable_font(hc):
+        locs = [None, {"wght": 900}, {"wght": 100}, {"wght": round(rnd.uniform(100, 900), 1)}]
     if case["variant"] == "genfv":
         cells = case["_prog"]["cells"]
         locs = [None] + (cells if len(cells) <= (7 if quick else 14) else rnd.sample(cells, 7 if quick else 14))
@@ -1004,7 +1010,25 @@ def _shaping(case, ctx, rnd, opts, chars, S0, S1, cmp_bytes, sub_bytes, orig_ord
     if "*" not in opts.layout_scripts:
         scripts = [s for s in scripts if s.strip() in opts.layout_scripts]
     configs = []
-    for ci in range(len(locs) if case["variant"] == "genfv" else (2 if quick else 3)):
+    # every declared (script, language) pair: all of them for the generated layout fonts, one extra non-default
+    # language system for any other font that declares one
+    pairs = []
+    if "*" in opts.layout_scripts:
+        for sc in scripts:
+            for lg in sorted(set(S0.scripts.get("GSUB", {}).get(sc, [])) | set(S0.scripts.get("GPOS", {}).get(sc, []))):
+                pairs.append((sc, lg))
+    forced = []
+    if case["variant"] == "genlay":
+        forced = list(pairs)
+    else:
+        nd = [p for p in pairs if p[1] != "dflt"]
+        if nd:
+            forced = [rnd.choice(nd)]
+    if case["variant"] in ("genfv", "genlay"):
+        nconf = max(len(locs), len(forced))
+    else:
+        nconf = (2 if quick else 3) + len(forced)
+    for ci in range(nconf):
         f = dict(feats)
         for t in sorted(kept):
             if t not in f and rnd.random() < 0.5:
@@ -1014,6 +1038,9 @@ def _shaping(case, ctx, rnd, opts, chars, S0, S1, cmp_bytes, sub_bytes, orig_ord
         lang = "dflt"
         if "*" in opts.layout_scripts and len(langs) > 1 and rnd.random() < 0.3:
             lang = rnd.choice(langs)
+        if ci < len(forced):
+            script, lang = forced[ci]
+            ctx.note("shaping configs with a declared language system")
         r = rnd.random()
         direction = "ltr" if r < 0.8 else ("rtl" if r < 0.92 else "ttb")
         loc = locs[ci % len(locs)]
